@@ -134,7 +134,7 @@ def tlc_mc(module, cfg, workers=8, timeout=1800, expect_violation=None, name=Non
         st['depth'] = int(m.group(1))
     cov = {}
     for a, line, mod, c1, c2 in _RE_COV.findall(out):
-        cov[a] = max(cov.get(a, 0), int(c1))
+        cov[a] = max(cov.get(a, 0), int(c2))       # times taken (c1 counts only the successors that were new)
     st['actions'] = cov
     viol = None
     mi = re.search(r'Invariant (\w+) is violated', out)
@@ -218,6 +218,33 @@ def tlc_trace(module, trace_path, timeout=1800, name=None, xmx='6g', deque=True,
         res['tlc_states'] = int(m[-1][1])
     if res.get('consumed') != res.get('total'):
         raise ToolError(f'{name}: trace spec stopped at event {res.get("consumed")} of {res.get("total")} (spec is not total):\n' + out[-2000:])
+    return res
+
+
+def tlc_mech_trace(module, trace_path, timeout=1800, name=None, xmx='6g', cfg=None):
+    """Mechanism-level trace validation: the trace spec re-uses the model's own actions (plus bounded silent steps), so
+    acceptance is 'some behaviour of the model matches every event'.  Returns dict(matched,total,next,wall_s,tlc_states,
+    invariant_violated).  A shortfall is not an error here: the caller reports it as DRIFT."""
+    name = name or module
+    meta = workdir('tv_' + name)
+    args = ['-workers', '1', '-metadir', meta, '-noGenerateSpecTE', '-config', cfg or (module + '.cfg'), module + '.tla']
+    rc, out, wall = _tlc(args, SPEC, env_extra={'TRACE': trace_path}, timeout=timeout, xmx=xmx, deque=True)
+    shutil.rmtree(meta, ignore_errors=True)
+    res = None
+    for line in out.splitlines():
+        if line.startswith('<<"MECH_RESULT"'):
+            m = re.match(r'<<"MECH_RESULT", (".*")>>$', line)
+            if m:
+                res = json.loads(_tla_unquote(m.group(1)))
+    inv = re.search(r'Invariant (\w+) is violated', out)
+    if res is None and not inv:
+        raise ToolError(f'{name}: mechanism trace validation produced no result:\n' + out[-4000:])
+    res = res or {'matched': -1, 'total': -1, 'next': {}}
+    res['invariant_violated'] = inv.group(1) if inv else None
+    res['wall_s'] = round(wall, 1)
+    m = _RE_STATES.findall(out)
+    if m:
+        res['tlc_states'] = int(m[-1][1])
     return res
 
 
